@@ -5,7 +5,7 @@
    ONLY to resolve addresses in the announced trees (local features, the peer's
    remote features) and to decide whether a write was authorised — both are the
    business of other properties (C06/C07, C03). *)
-From Verif Require Import Base.Prelude Model.Stack.
+From Verif Require Import Base.Prelude Model.Stack Spec.StackObs.
 
 Definition CL_GRANT : Z := 1.     (* outcome of a subscription request differs from the grant rule *)
 Definition CL_EVENT : Z := 2.     (* subscription add/remove event missing, duplicated or wrong *)
@@ -23,71 +23,12 @@ Definition eqb_srv (a b : eaddr * N) : bool := eqb_eaddr (fst a) (fst b) && N.eq
 Definition eqb_sentry (a b : sentry) : bool :=
   eqb_srv (s_srv a) (s_srv b) && N.eqb (s_ski a) (s_ski b) && eqb_faddr (s_cli a) (s_cli b).
 
-(* ---- projections of an observation list ---- *)
-Definition is_result (o : obs) : bool := match o with OResult _ _ _ _ _ => true | _ => false end.
-Definition is_notify (o : obs) : bool := match o with ONotify _ _ _ _ _ => true | _ => false end.
-Definition is_sub_event (o : obs) : bool := match o with OEvent EvSub _ _ _ _ _ => true | _ => false end.
-
-Definition results (out : list obs) : list (N * N * bool) :=
-  flat_map (fun o => match o with OResult p r e _ _ => [(p, r, e)] | _ => [] end) out.
-
-Definition eqb_res (a b : N * N * bool) : bool :=
-  let '(p, r, e) := a in let '(p', r', e') := b in N.eqb p p' && N.eqb r r' && Bool.eqb e e'.
-
-Fixpoint eqb_list {A} (eqb : A -> A -> bool) (a b : list A) : bool :=
-  match a, b with
-  | [], [] => true
-  | x :: a', y :: b' => eqb x y && eqb_list eqb a' b'
-  | _, _ => false
-  end.
-
-(* multiset equality by removing one occurrence at a time *)
-Fixpoint remove_first {A} (eqb : A -> A -> bool) (x : A) (l : list A) : option (list A) :=
-  match l with
-  | [] => None
-  | y :: r => if eqb x y then Some r
-              else match remove_first eqb x r with Some r' => Some (y :: r') | None => None end
-  end.
-
-Fixpoint same_multiset {A} (eqb : A -> A -> bool) (a b : list A) : bool :=
-  match a with
-  | [] => match b with [] => true | _ => false end
-  | x :: a' => match remove_first eqb x b with Some b' => same_multiset eqb a' b' | None => false end
-  end.
-
-Definition eqb_obs_notify (a b : obs) : bool :=
-  match a, b with
-  | ONotify p s d fn v, ONotify p' s' d' fn' v' =>
-      N.eqb p p' && eqb_faddr s s' && eqb_faddr d d' && N.eqb fn fn' && N.eqb v v'
-  | _, _ => false
-  end.
-
-Definition eqb_opt {A} (eqb : A -> A -> bool) (a b : option A) : bool :=
-  match a, b with
-  | None, None => true
-  | Some x, Some y => eqb x y
-  | _, _ => false
-  end.
-
-Definition eqb_obs_event (a b : obs) : bool :=
-  match a, b with
-  | OEvent k c ski e f lf, OEvent k' c' ski' e' f' lf' =>
-      match k, k' with EvDevice, EvDevice | EvEntity, EvEntity | EvSub, EvSub | EvBind, EvBind | EvData, EvData => true | _, _ => false end &&
-      match c, c' with ChAdd, ChAdd | ChUpdate, ChUpdate | ChRemove, ChRemove => true | _, _ => false end &&
-      N.eqb ski ski' && eqb_opt eqb_eaddr e e' && eqb_opt eqb_faddr f f' && eqb_opt eqb_faddr lf lf'
-  | _, _ => false
-  end.
-
 Definition srv_addr (x : eaddr * N) : faddr := {| fa_dev := Some LOCAL_DEV; fa_ent := fst x; fa_feat := Some (snd x) |}.
 
 (* the notifications a change of (fn, v) on local feature [sf] must produce *)
 Definition fanout (m : mst) (sf : lfeat) (fn v : N) : list obs :=
   map (fun x => ONotify (s_ski x) (lf_addr sf) (s_cli x) fn v)
       (filter (fun x => eqb_srv (s_srv x) (lf_ent sf, lf_id sf)) (reg m)).
-
-Definition check (b : bool) (c : Z) : verdict := if b then [] else [c].
-
-Fixpoint nodupb (l : list N) : bool := match l with [] => true | x :: r => negb (memN x r) && nodupb r end.
 
 (* no notification and no subscription event *)
 Definition quiet (out : list obs) : verdict :=
@@ -125,7 +66,6 @@ Definition entries_seen (p : N) (out : list obs) : list sentry :=
                      | _ => []
                      end) out.
 Definition ids_seen (out : list obs) : list N := flat_map (fun x => match x with OEntry id _ _ => [id] | _ => [] end) out.
-Definition is_ev_data (x : obs) : bool := match x with OEvent EvData _ _ _ _ _ => true | _ => false end.
 
 Definition mon (m : mst) (o : op) (out : list obs) : mst * verdict :=
   match o with
